@@ -7,7 +7,7 @@ VERIF = pathlib.Path(__file__).resolve().parent.parent
 rows = []
 for f in sorted(glob.glob(str(VERIF / 'seeded' / '*' / 'meta.json'))):
     m = json.load(open(f))
-    off = (m.get('check_against_repo') or [{}])
+    off = (m.get('check_against_repo') or [])
     files = ', '.join(sorted({x.split('|')[0].strip().replace('src/emsarray/', '') for x in m.get('files_touched', [])}))
     verdicts = '; '.join(
         f"{r['property']}: " + ('**missed**' if r.get('exit') == 0 else
